@@ -166,6 +166,13 @@ func genMagicCases(tier string, emit func(op string, fields ...string)) {
 			emit("WALK", hexs(src), "110")
 		}
 	}
+	// programs that are valid by construction: the parser must accept them (PARSEV) whatever their size
+	valid := func(src string) {
+		prog(src)
+		if len(src) <= 70000 {
+			emit("PARSEV", hexs(src))
+		}
+	}
 	for _, n := range ns {
 		// lexical sizes
 		lexAndParse("T | where " + rep("a", n) + " == 1")
@@ -187,23 +194,23 @@ func genMagicCases(tier string, emit func(op string, fields ...string)) {
 		lexAndParse(rep("T | count;\n", n) + "U | bogus")
 		if n <= 12000 {
 			// structural sizes
-			prog("T" + rep(" | count", n))
-			prog("T | where " + rep("(", n) + "a" + rep(")", n))
-			prog("T | where " + rep("-", n) + "a > 0")
-			prog("T | where " + rep("not(", n) + "a" + rep(")", n))
-			prog("T | where a" + rep(" + a", n) + " > 0")
-			prog("T | where a" + rep(" and a", n))
+			valid("T" + rep(" | count", n))
+			valid("T | where " + rep("(", n) + "a" + rep(")", n))
+			valid("T | where " + rep("-", n) + "a > 0")
+			valid("T | where " + rep("not(", n) + "a" + rep(")", n))
+			valid("T | where a" + rep(" + a", n) + " > 0")
+			valid("T | where a" + rep(" and a", n))
 			var xs []string
 			for i := 0; i < n; i++ {
 				xs = append(xs, pick([]string{strconv.Itoa(i), "c" + strconv.Itoa(i), "-" + strconv.Itoa(i), "'v'"}))
 			}
-			prog("T | where x in (" + strings.Join(xs, ", ") + ")")
+			valid("T | where x in (" + strings.Join(xs, ", ") + ")")
 			prog("T | extend y = strcat(" + strings.Join(xs, ", ") + ")")
 			var cs []string
 			for i := 0; i < n; i++ {
 				cs = append(cs, "c"+strconv.Itoa(i))
 			}
-			prog("T | project " + strings.Join(cs, ", "))
+			valid("T | project " + strings.Join(cs, ", "))
 			prog("T | sort by " + strings.Join(cs, ", "))
 			prog("T | summarize count() by " + strings.Join(cs, ", "))
 			prog(rep("let v = 1; ", n) + "T | take v")
@@ -244,9 +251,9 @@ func genMagicCases(tier string, emit func(op string, fields ...string)) {
 					rb[i], rb[j] = rb[j], rb[i]
 				}
 				nest := open.String() + "x" + string(rb)
-				prog("T | where f((a[" + nest + "]), b) | count")
-				prog("T | join kind=inner (U | where (a[" + nest + "]) == 1 | count) on k | take 5")
-				prog("T | where g(" + nest + ", c[" + nest + "]) and d")
+				valid("T | where f((a[" + nest + "]), b) | count")
+				valid("T | join kind=inner (U | where (a[" + nest + "]) == 1 | count) on k | take 5")
+				valid("T | where g(" + nest + ", c[" + nest + "]) and d")
 			}
 		}
 		if n >= 64 {
